@@ -122,6 +122,25 @@ def veq(a, b):
     return False
 
 
+def leq(a, b):
+    """*label* equality on canonical scalars: value strength, and a datetime64 equals the
+    datetime.date / datetime object NumPy's object conversion presents it as (recursively
+    inside tuples)."""
+    if veq(a, b):
+        return True
+    ka, kb = a[0], b[0]
+    if ka == 'dt64' and kb in ('date', 'datetime'):
+        a, b, ka, kb = b, a, kb, ka
+    if ka in ('date', 'datetime') and kb == 'dt64' and b[2] != NAT:
+        try:
+            return bool(np.datetime64(a[1]) == np.array(b[2], dtype=f'M8[{b[1]}]'))
+        except Exception:
+            return False
+    if ka == kb == 'tuple' and len(a[1]) == len(b[1]):
+        return all(leq(x, y) for x, y in zip(a[1], b[1]))
+    return False
+
+
 def ceq(a, b, rel=1e-9, abs_=1e-12):
     """*close* strength: like veq but floats/complex within tolerance."""
     if veq(a, b):
